@@ -73,6 +73,7 @@ func cmdRun(args []string) {
 	trace := fs.Bool("trace", false, "")
 	_ = fs.Parse(args)
 	loadKnown(a.Known)
+	raceMode = a.Race
 	fixtureRoot = a.RepoRoot
 	start := time.Now()
 	b := newBatch(a.Engine, a.Property, a.Seed, a.Shard)
@@ -166,6 +167,7 @@ func cmdReplay(args []string) {
 		fmt.Fprintln(os.Stderr, "worker:", err)
 		os.Exit(2)
 	}
+	raceMode = v.RaceReport != ""
 	if *minimise {
 		mv := minimiseViolation(&v)
 		if err := writeJSON(*out, mv); err != nil {
